@@ -9,7 +9,7 @@
 //     exactly once (missing / duplicated -> error), unknown keys ignored (serde's default), every
 //     value inside its type's range; and the argument values it must decode to.
 
-use support::doc::{decode, E, V};
+use support::doc::{boolean, decode, num, Msg, Obj, E};
 use support::rec::{self, Rec, K_BOOL, K_END, K_FIELD, K_STRUCT, K_STRUCT_VARIANT, K_U64};
 use support::sym::str_eq;
 
@@ -81,55 +81,53 @@ pub fn body_accept(h: &HSpec, keys: &[&str], kvals: &[u64]) -> Option<[u64; 3]> 
     Some(out)
 }
 
-/// Body layouts (key lists) tried by the decode harnesses; values are symbolic.
-pub const LAYOUTS: [&[&str]; 10] = [
-    &[],
-    &["a", "b"],
-    &["b", "a"],
-    &["a"],
-    &["a", "b", "zz"],
-    &["a", "a"],
-    &["x"],
-    &["n"],
-    &["k"],
-    &["flag", "b"],
-];
+/// Body layouts (key lists) tried by the decode harnesses; values are symbolic.  One constant per
+/// layout so that every size is a compile-time constant.
+pub const L0: [&str; 0] = [];
+pub const L1: [&str; 2] = ["a", "b"];
+pub const L2: [&str; 2] = ["b", "a"];
+pub const L3: [&str; 1] = ["a"];
+pub const L4: [&str; 3] = ["a", "b", "zz"];
+pub const L5: [&str; 2] = ["a", "a"];
+pub const L6: [&str; 1] = ["x"];
+pub const L7: [&str; 1] = ["n"];
+pub const L8: [&str; 1] = ["k"];
+pub const L9: [&str; 2] = ["flag", "b"];
 
-/// Scalar document value for a key: bool-kinded arguments are sent as JSON booleans.
-pub fn scalar<'a>(h: &HSpec, key: &str, v: u64) -> V<'a> {
+/// Is `key` a bool-kinded argument of `h`?  (such values are sent as JSON booleans)
+pub fn is_bool_arg(h: &HSpec, key: &str) -> bool {
     let mut i = 0;
     while i < h.args.len() {
         if str_eq(h.args[i].0, key) && h.args[i].1 == 1 {
-            return V::Bool(v & 1 == 1);
+            return true;
         }
         i += 1;
     }
-    V::U64(v)
+    false
 }
 
 /// Decode handler `h` of message type `T` from `{name: {layout}}` (or the flat `{layout}`), compare
 /// with the oracle, and on success check the decoded value by re-serialising it.
-pub fn decode_case<T>(h: &HSpec, flat: bool, layout: &[&str], kv: &[u64; 3])
+pub fn decode_case<T, const K: usize>(h: &HSpec, flat: bool, layout: [&'static str; K], kv: &[u64; 3])
 where
     T: sylvia::serde::de::DeserializeOwned + sylvia::serde::Serialize,
 {
-    // bool-kinded values are 0/1 on the wire
-    let mut vals = [0u64; 3];
-    let mut body = [("", V::Null); 3];
+    let mut vals = [0u64; K];
+    let mut scs = [num(0); K];
     let mut j = 0;
-    while j < layout.len() {
-        let sv = scalar(h, layout[j], kv[j]);
-        vals[j] = match sv {
-            V::Bool(b) => b as u64,
-            _ => kv[j],
-        };
-        body[j] = (layout[j], sv);
+    while j < K {
+        if is_bool_arg(h, layout[j]) {
+            vals[j] = kv[j] & 1;
+            scs[j] = boolean(kv[j] & 1 == 1);
+        } else {
+            vals[j] = kv[j];
+            scs[j] = num(kv[j]);
+        }
         j += 1;
     }
-    let body_v = V::Map(&body[..layout.len()]);
-    let entry = [(h.name, body_v)];
-    let r: Result<T, E> = if flat { decode(body_v) } else { decode(V::Map(&entry)) };
-    let want = body_accept(h, layout, &vals);
+    let body = Obj { keys: layout, vals: scs };
+    let r: Result<T, E> = if flat { decode(body) } else { decode(Msg { name: h.name, body }) };
+    let want = body_accept(h, &layout, &vals);
     match (&r, want) {
         (Ok(m), Some(args)) => {
             let rec = match rec::record(m) {
